@@ -10,13 +10,23 @@ IGNORE_HOOK = [r'^TROMPELOEIL_VERIF_ACCESS\(.*\)$']
 LOCK_DECL = [r'^auto lock = get_lock\(\)$']
 
 
+# String literals streamed into a report: only the phrases that carry structure (the ones the harness' report parser
+# and the properties key on) are kept; all other wording is `Tok.text`, so that re-wording a message does not break a tie.
+KEY_PHRASES = [('no more pending', 'noMore'), ('first in line', 'firstInLine'), ('first required', 'firstRequired'),
+               ('missing', 'missing'), ('Sequence mismatch', 'seqMismatch'), ('not met at destruction', 'teardown'),
+               ('and has', 'andHas'), ('" has ', 'has')]
+
+
 def lit(m, em):
-    return 'Tok.lit ' + m.group(0)
+    text = m.group(0)
+    for phrase, key in KEY_PHRASES:
+        if phrase in text:
+            return 'Tok.key "%s"' % key
+    return 'Tok.text'
 
 
 def chrlit(m, em):
-    c = m.group(0)[1:-1]
-    return 'Tok.lit "%s"' % {'"': '\\"'}.get(c, c)
+    return 'Tok.text'
 
 
 STR_TOK = [(r'^"(?:\\.|[^"\\])*"$', lit), (r"^'(?:\\.|[^'\\])*'$", chrlit)]
@@ -104,5 +114,203 @@ FUNCTIONS = [
                     (r'^(\w+)->print_expectation\(os\)$', r'os := os ++ [Tok.expectation \1]')],
         stream_sinks=[(r'^os$', 'os')],
         tok_rules=STR_TOK + [(r'^m->sequence_name\(\)$', 'Tok.seqName')],
+    ),
+
+    # ---- action traces: the statements a function executes, in order, as data ------------------------------------
+    dict(
+        name='run_actions', cxx='call_matcher::run_actions', file=MOCK,
+        header=r'run_actions\(\s*call_params_type_t<Sig>&\s*params,\s*call_matcher_list<Sig>\s*&saturated_list\)\s*override',
+        lean_sig='(is_forbidden can_be_called is_saturated : Bool) (actions : List Nat) : List Act',
+        acts=True, prologue=['let mut acts : List Act := []'], epilogue='return acts', void_result='acts',
+        vars={'actions': 'actions'}, decl_ignore=LOCK_DECL,
+        noreturn=[r'^report_forbidden_call\(', r'^sequences->validate\(severity::fatal,'],
+        expr_rules=[(r'^sequences->is_forbidden\(\)$', 'is_forbidden'), (r'^!sequences->can_be_called\(\)$', '(!can_be_called)'),
+                    (r'^sequences->is_saturated\(\)$', 'is_saturated')],
+        stmt_rules=[(r'^a\.action\(params\)$', 'acts := acts ++ [Act.on "action" a]')],
+    ),
+    dict(
+        name='call_matcher_dtor', cxx='call_matcher::~call_matcher', file=MOCK,
+        header=r'~call_matcher\(\)\s*override',
+        lean_sig='(is_unfulfilled : Bool) : List Act',
+        acts=True, prologue=['let mut acts : List Act := []'], epilogue='return acts', void_result='acts',
+        decl_ignore=LOCK_DECL,
+        expr_rules=[(r'^is_unfulfilled\(\)$', 'is_unfulfilled')],
+    ),
+    dict(
+        name='mock_destroyed', cxx='call_matcher::mock_destroyed', file=MOCK,
+        header=r'mock_destroyed\(\)\s*override',
+        lean_sig='(is_unfulfilled : Bool) : List Act',
+        acts=True, prologue=['let mut acts : List Act := []'], epilogue='return acts', void_result='acts',
+        expr_rules=[(r'^is_unfulfilled\(\)$', 'is_unfulfilled')],
+    ),
+    dict(
+        name='is_unfulfilled', cxx='call_matcher::is_unfulfilled', file=MOCK,
+        header=r'is_unfulfilled\(\)\s*const\s*noexcept',
+        lean_sig='(reported is_linked is_satisfied : Bool) : Bool',
+        vars={'reported': 'reported'},
+        expr_rules=[(r'^this->is_linked\(\)$', 'is_linked'), (r'^sequences->is_satisfied\(\)$', 'is_satisfied')],
+    ),
+    dict(
+        name='report_missed', cxx='call_matcher::report_missed', file=MOCK,
+        header=r'report_missed\(\s*char const \*reason\)\s*noexcept',
+        lean_sig=': List Act',
+        acts=True, prologue=['let mut acts : List Act := []'], epilogue='return acts', void_result='acts',
+    ),
+    dict(
+        name='decommission', cxx='call_matcher_list::decommission', file=MOCK,
+        header=r'void decommission\(\)',
+        lean_sig='(list : List Nat) : List Act',
+        acts=True, prologue=['let mut acts : List Act := []'], epilogue='return acts', void_result='acts',
+        decl_ignore=LOCK_DECL, this_list='list',
+        stmt_rules=[(r'^m\.mock_destroyed\(\)$', 'acts := acts ++ [Act.on "mock_destroyed" m]'),
+                    (r'^m\.unlink\(\)$', 'acts := acts ++ [Act.on "unlink" m]')],
+    ),
+    dict(
+        name='notify', cxx='lifetime_monitor::notify', file=LIFE,
+        header=r'\n\s*notify\(\)\s*noexcept',
+        lean_sig=': List Act',
+        acts=True, prologue=['let mut acts : List Act := []'], epilogue='return acts', void_result='acts',
+    ),
+    dict(
+        name='lifetime_monitor_dtor', cxx='lifetime_monitor::~lifetime_monitor', file=LIFE,
+        header=r'~lifetime_monitor\(\)\s*override',
+        lean_sig='(died : Bool) (this_ : Nat) (chain0 : List Nat) : List Act × List Nat',
+        acts=True, prologue=['let mut acts : List Act := []', 'let mut chain := chain0'],
+        epilogue='return (acts, chain)', void_result='(acts, chain)',
+        decl_ignore=LOCK_DECL, vars={'died': 'died'},
+        decl_rules=[(r'^std::ostringstream os$', '')],
+        stream_sinks=[(r'^os$', 'os_')], tok_rules=[(r'.*', '')],
+        chains=[(r'object_monitor', 'older_monitor', 'chain')],
+    ),
+    dict(
+        name='deathwatched_dtor', cxx='deathwatched<T>::~deathwatched', file=LIFE,
+        header=r'deathwatched<T>::~deathwatched\(\)',
+        lean_sig='(chain : List Nat) : List Act',
+        acts=True, prologue=['let mut acts : List Act := []'], epilogue='return acts', void_result='acts',
+        decl_ignore=LOCK_DECL, stmt_ignore=IGNORE_HOOK,
+        decl_rules=[(r'^std::ostringstream os$', '')],
+        stream_sinks=[(r'^os$', 'os_')], tok_rules=[(r'.*', '')],
+        expr_rules=[(r'^trompeloeil_lifetime_monitor$', '(!chain.isEmpty)')],
+        chain_walks=[(r'trompeloeil_lifetime_monitor\.leak\(\)', 'older_monitor', 'chain')],
+        stmt_rules=[(r'^m->notify\(\)$', 'acts := acts ++ [Act.on "notify" m]')],
+    ),
+    dict(
+        name='tracer_dtor', cxx='tracer::~tracer', file=MOCK,
+        header=r'~tracer\(\)',
+        lean_sig='(this_ : Nat) (chain0 : List Nat) : List Nat',
+        prologue=['let mut chain := chain0'], epilogue='return chain', void_result='chain',
+        chains=[(r'tracer_obj\(\)', 'previous', 'chain')],
+    ),
+    dict(
+        name='mock_func', cxx='trompeloeil::mock_func', file=MOCK,
+        header=r'mock_func\(expectations<movable, Sig>& e,[^)]*\)',
+        lean_sig='(found : Bool) : List Act',
+        acts=True, prologue=['let mut acts : List Act := []'], epilogue='return acts', void_result='acts',
+        decl_ignore=LOCK_DECL + [r'^call_params_type_t<void\(P\.\.\.\)> param_value', r'.*param_value.*std::forward'],
+        pre=[(r'call_params_type_t<void\(P\.\.\.\)>\s*param_value\(std::forward<P>\(p\)\.\.\.\);', '')],
+        typewords=['trace_agent'],
+        noreturn=[r'^report_mismatch\('],
+        decl_rules=[(r'^auto i = find\(e\.active, param_value\)$', 'acts := acts ++ [Act.stmt "find(e.active, param_value)"]'),
+                    (r'^trace_agent ta = \{i->loc, i->name, tracer_obj\(\)\}$', 'acts := acts ++ [Act.stmt "trace_agent ta{i->loc, i->name, tracer_obj()}"]')],
+        expr_rules=[(r'^!i$', '(!found)')],
+        ret_rules=[(r'^i->return_value\(ta, param_value\)$', 'acts ++ [Act.stmt "return i->return_value(ta, param_value)"]')],
+        try_catch='mock_func',
+    ),
+
+    # ---- sequence_matcher (one handle) and sequence_matchers<N> (all handles of one expectation) -------------------
+    dict(
+        name='handle_cost', cxx='sequence_matcher::cost', file=SEQ, module='HandleCost',
+        header=r'unsigned\s+cost\(\)\s*const\s*noexcept(?=\s*\{\s*return seq)',
+        lean_sig='(seq_attached : Bool) (cost_in_sequence : Nat) : Nat',
+        expr_rules=[(r'^seq$', 'seq_attached'), (r'^seq->cost\(this\)$', 'cost_in_sequence')],
+    ),
+    dict(
+        name='handle_validate', cxx='sequence_matcher::validate_match', file=SEQ, module='HandleValidate',
+        header=r'void\s+validate_match\(\s*severity s,\s*char const \*match_name,\s*location loc\)\s*const(?=\s*\{\s*if \(seq\))',
+        lean_sig='(seq_attached : Bool) : List Act',
+        acts=True, prologue=['let mut acts : List Act := []'], epilogue='return acts', void_result='acts',
+        expr_rules=[(r'^seq$', 'seq_attached')],
+    ),
+    dict(
+        name='handle_retire', cxx='sequence_matcher::retire', file=SEQ, module='HandleRetire',
+        header=r'void\s+retire\(\)\s*noexcept(?=\s*\{\s*this->unlink)',
+        lean_sig='(seq_attached : Bool) : List Act',
+        acts=True, prologue=['let mut acts : List Act := []'], epilogue='return acts', void_result='acts',
+        expr_rules=[(r'^seq$', 'seq_attached')],
+    ),
+    dict(
+        name='handle_detach', cxx='sequence_matcher::detach', file=SEQ, module='HandleDetach',
+        header=r'void\s+detach\(\)\s*noexcept',
+        lean_sig=': List Act',
+        acts=True, prologue=['let mut acts : List Act := []'], epilogue='return acts', void_result='acts',
+    ),
+    dict(
+        name='handle_retire_predecessors', cxx='sequence_matcher::retire_predecessors', file=SEQ, module='HandleRetirePredecessors',
+        header=r'void\s+retire_predecessors\(\)\s*noexcept(?=\s*\{\s*if \(seq\))',
+        lean_sig='(seq_attached : Bool) : List Act',
+        acts=True, prologue=['let mut acts : List Act := []'], epilogue='return acts', void_result='acts',
+        expr_rules=[(r'^seq$', 'seq_attached')],
+    ),
+    dict(
+        name='all_validate', cxx='sequence_matchers<N>::validate', file=SEQ, module='AllValidate',
+        header=r'void\s+validate\(\s*severity s,\s*char const \*match_name,\s*location loc\)(?=\s*\{\s*for)',
+        lean_sig='(matchers : List Nat) : List Act',
+        acts=True, prologue=['let mut acts : List Act := []'], epilogue='return acts', void_result='acts',
+        vars={'matchers': 'matchers'},
+        stmt_rules=[(r'^e\.validate_match\(s, match_name, loc\)$', 'acts := acts ++ [Act.on "validate_match" e]')],
+    ),
+    dict(
+        name='all_retire', cxx='sequence_matchers<N>::retire', file=SEQ, module='AllRetire',
+        header=r'void\s+retire\(\)\s*noexcept(?=\s*\{\s*for)',
+        lean_sig='(matchers : List Nat) : List Act',
+        acts=True, prologue=['let mut acts : List Act := []'], epilogue='return acts', void_result='acts',
+        vars={'matchers': 'matchers'},
+        stmt_rules=[(r'^e\.retire\(\)$', 'acts := acts ++ [Act.on "retire" e]')],
+    ),
+    dict(
+        name='all_retire_predecessors', cxx='sequence_matchers<N>::retire_predecessors', file=SEQ, module='AllRetirePredecessors',
+        header=r'void\s+retire_predecessors\(\)\s*noexcept(?=\s*\{\s*for)',
+        lean_sig='(matchers : List Nat) : List Act',
+        acts=True, prologue=['let mut acts : List Act := []'], epilogue='return acts', void_result='acts',
+        vars={'matchers': 'matchers'},
+        stmt_rules=[(r'^e\.retire_predecessors\(\)$', 'acts := acts ++ [Act.on "retire_predecessors" e]')],
+    ),
+    dict(
+        name='can_be_called', cxx='sequence_handler<N>::can_be_called', file=MOCK, module='CanBeCalled',
+        header=r'can_be_called\(\)\s*const\s*noexcept\s*override',
+        lean_sig='(order : Nat) : Bool',
+        expr_rules=[(r'^order\(\) != ~0U$', '(order != topU)')],
+    ),
+    dict(
+        name='is_satisfied', cxx='sequence_handler_base::is_satisfied', file=MOCK, module='HandlerIsSatisfied',
+        header=r'is_satisfied\(\)\s*const\s*noexcept(?=\s*\{\s*return call_count)',
+        lean_sig='(min_calls max_calls call_count : Nat) : Bool',
+        vars={'min_calls': 'min_calls', 'max_calls': 'max_calls', 'call_count': 'call_count'},
+    ),
+    dict(
+        name='is_saturated', cxx='sequence_handler_base::is_saturated', file=MOCK, module='HandlerIsSaturated',
+        header=r'is_saturated\(\)\s*const\s*noexcept(?=\s*\{\s*return call_count)',
+        lean_sig='(min_calls max_calls call_count : Nat) : Bool',
+        vars={'min_calls': 'min_calls', 'max_calls': 'max_calls', 'call_count': 'call_count'},
+    ),
+    dict(
+        name='is_forbidden', cxx='sequence_handler_base::is_forbidden', file=MOCK, module='HandlerIsForbidden',
+        header=r'is_forbidden\(\)\s*const\s*noexcept',
+        lean_sig='(min_calls max_calls call_count : Nat) : Bool',
+        vars={'min_calls': 'min_calls', 'max_calls': 'max_calls', 'call_count': 'call_count'},
+        expr_rules=[(r'^0ULL$', '0')],
+    ),
+    dict(
+        name='increment_call', cxx='sequence_handler_base::increment_call', file=MOCK, module='HandlerIncrementCall',
+        header=r'increment_call\(\)\s*noexcept',
+        lean_sig='(call_count0 : Nat) : Nat',
+        prologue=['let mut call_count := call_count0'], epilogue='return call_count', void_result='call_count',
+        vars={'call_count': 'call_count'}, stmt_ignore=IGNORE_HOOK,
+    ),
+    dict(
+        name='is_optional', cxx='sequence_matcher::is_optional', file=SEQ, module='HandleIsOptional',
+        header=r'sequence_matcher::is_optional\(\)\s*const\s*noexcept',
+        lean_sig='(min_calls : Nat) : Bool',
+        expr_rules=[(r'^sequence_handler\.get_min_calls\(\)$', 'min_calls')],
     ),
 ]
